@@ -330,6 +330,17 @@ func (fr *Frame) nativeCallVals(st *State, fn *ssa.Function, args []Val, sig *ty
 			}
 			return TV{ite(app(op, a.S, b.S), a.S, b.S), SReal, sig.Results().At(0).Type()}, true
 		}
+	case "math.Pow":
+		used()
+		// floating point treated as real arithmetic (recorded as an assumption): Pow is an uninterpreted real function
+		// with the one fact used: a base >= 1 raised to a non-negative power is >= 1
+		a, b := fr.tvOf(st, args[0], nil), fr.tvOf(st, args[1], nil)
+		if a.Sort == SReal && b.Sort == SReal {
+			v := app("fpow", a.S, b.S)
+			r.assumeGlobal(implies(and(app(">=", a.S, "1.0"), app(">=", b.S, "0.0")), app(">=", v, "1.0")))
+			r.assumed["floating-point arithmetic (math.Pow, math.Min, float64 conversions) treated as exact real arithmetic"] = true
+			return TV{v, SReal, sig.Results().At(0).Type()}, true
+		}
 	case "math/rand.Intn", "math/rand/v2.IntN":
 		used()
 		n := fr.tvOf(st, args[0], nil)
